@@ -568,4 +568,165 @@ theorem pipeline_any_segmentation (rs : List ReqSpec) (hall : ∀ r ∈ rs, r.OK
       simp only [Corr] at this
       rw [this, ← hr]
 
+/-! ### the request parser on the extracted bytes -/
+
+structure ReqLine where
+  method : Nat          -- index into the method table = `enum class HttpMethod`
+  target : Bytes
+  minor : Nat
+
+def methodName (i : Nat) : Bytes := ((Gen.Http.methods.map ascii)[i]?).getD []
+def versionBytes (minor : Nat) : Bytes := [72, 84, 84, 80, 47, 49, 46, b8 (48 + minor)]
+def ReqLine.render (l : ReqLine) : Bytes := methodName l.method ++ 32 :: (l.target ++ 32 :: versionBytes l.minor)
+
+structure ReqLine.WF (l : ReqLine) : Prop where
+  method_ok : l.method < 9
+  target_ne : l.target ≠ []
+  target_ok : ∀ c ∈ l.target, 0x21 ≤ c.toNat ∧ c.toNat ≠ 0x7F
+  target_len : l.target.length ≤ Gen.Http.maxRequestTargetSize
+  minor_ok : l.minor ≤ 9
+
+theorem method_table0 : ∀ i, i < 9 →
+    methodName i ≠ [] ∧ (∀ c ∈ methodName i, (c == 32) = false ∧ ¬ (c.toNat < 0x21)) ∧
+      (parseMethod (methodName i)).toOption = some i := by
+  decide
+
+theorem method_table (i : Nat) (hi : i < 9) :
+    methodName i ≠ [] ∧ (∀ c ∈ methodName i, (c == 32) = false ∧ ¬ (c.toNat < 0x21)) ∧ parseMethod (methodName i) = .ok i := by
+  obtain ⟨a, b, c⟩ := method_table0 i hi
+  refine ⟨a, b, ?_⟩
+  cases hp : parseMethod (methodName i) with
+  | error e => rw [hp] at c; cases c
+  | ok j => rw [hp] at c; simp [Except.toOption] at c; rw [c]
+
+theorem version_facts (minor : Nat) (h : minor ≤ 9) :
+    (versionBytes minor).any (fun c => decide (c.toNat < 0x21)) = false ∧ parseVersion (versionBytes minor) = some (1, minor) := by
+  have ht : (b8 (48 + minor)).toNat = 48 + minor := by simp [b8_toNat]; omega
+  constructor
+  · simp only [versionBytes, List.any_cons, List.any_nil, ht]
+    simp (config := { decide := true })
+    omega
+  · simp only [versionBytes, parseVersion, isDigit, ht]
+    have h1 : 48 ≤ 48 + minor ∧ 48 + minor ≤ 57 := by omega
+    simp (config := { decide := true }) [h1]
+
+theorem parseRequestLine_exact (l : ReqLine) (h : l.WF) :
+    parseRequestLine l.render = .ok (l.method, l.target, l.minor) := by
+  obtain ⟨hmne, hmch, hpm⟩ := method_table l.method h.method_ok
+  obtain ⟨hv1, hv2⟩ := version_facts l.minor h.minor_ok
+  have htsp : ∀ c ∈ l.target, (c == 32) = false := by
+    intro c hc
+    have := (h.target_ok c hc).1
+    simp only [beq_eq_false_iff_ne, ne_eq]
+    intro h32; subst h32; simp at this
+  have hp1 : indexOf? (· == 32) l.render = some (methodName l.method).length :=
+    indexOf_skip _ _ 32 _ (fun c hc => (hmch c hc).1) (by decide)
+  have hd1 : l.render.drop ((methodName l.method).length + 1) = l.target ++ 32 :: versionBytes l.minor := by
+    have e : l.render = (methodName l.method ++ [32]) ++ (l.target ++ 32 :: versionBytes l.minor) := by simp [ReqLine.render]
+    rw [e, List.drop_left']; simp
+  have hp2 : indexOf? (· == 32) (l.target ++ 32 :: versionBytes l.minor) = some l.target.length :=
+    indexOf_skip _ _ 32 _ htsp (by decide)
+  have hml : 0 < (methodName l.method).length := List.length_pos_iff.mpr hmne
+  have htl : 0 < l.target.length := List.length_pos_iff.mpr h.target_ne
+  have hlen : l.render.length = (methodName l.method).length + 1 + l.target.length + 1 + 8 := by
+    simp [ReqLine.render, versionBytes]; omega
+  have htake1 : l.render.take (methodName l.method).length = methodName l.method := by
+    unfold ReqLine.render; rw [List.take_left']; rfl
+  have htake2 : (l.target ++ 32 :: versionBytes l.minor).take l.target.length = l.target := by
+    rw [List.take_left']; rfl
+  have hd2 : l.render.drop ((methodName l.method).length + 1 + l.target.length + 1) = versionBytes l.minor := by
+    have e : l.render = (methodName l.method ++ [32] ++ l.target ++ [32]) ++ versionBytes l.minor := by simp [ReqLine.render]
+    rw [e, List.drop_left']; simp; omega
+  have hmany : (methodName l.method).any (fun c => decide (c.toNat < 0x21)) = false := by
+    rw [List.any_eq_false]; intro c hc; simpa using (hmch c hc).2
+  have htany : l.target.any (fun c => decide (c.toNat < 0x20 ∨ c.toNat = 0x7F)) = false := by
+    rw [List.any_eq_false]; intro c hc
+    have := h.target_ok c hc
+    simp only [decide_eq_true_eq]; omega
+  unfold parseRequestLine
+  simp only [hp1, hd1, hp2]
+  have hc : ¬ ((methodName l.method).length = 0 ∨
+      (methodName l.method).length + 1 + l.target.length = (methodName l.method).length + 1 ∨
+      (methodName l.method).length + 1 + l.target.length + 1 ≥ l.render.length) := by omega
+  have htl' : ¬ (l.target.length > Gen.Http.maxRequestTargetSize) := by have := h.target_len; omega
+  simp only [hc, ↓reduceIte, htake1, htake2, hd2, hmany, hv1, Bool.false_eq_true, htl', htany, hpm, hv2]
+  simp
+
+/-- the header map and Host count `fromWireFormat` builds from field lines -/
+def reqHeaders (fs : List Field) (h : Headers) : Headers := fs.foldl (fun h f => addOrCombine h f.name f.value) h
+def hostCount (fs : List Field) : Nat := (fs.filter (fun f => ciEq f.name (ascii "Host"))).length
+
+theorem parseReqLines_exact : ∀ (fs : List Field) (h : Headers) (n : Nat), (∀ f ∈ fs, f.WF) →
+    parseReqLines (fs.map Field.line) h n = .ok (reqHeaders fs h, n + hostCount fs) := by
+  intro fs
+  induction fs with
+  | nil => intro h n _; simp [parseReqLines, reqHeaders, hostCount]
+  | cons f fs ih =>
+    intro h n hwf
+    obtain ⟨hne, hhead, hidx, hname, hval⟩ := fieldLine_parse f (hwf f (by simp))
+    simp only [List.map_cons]
+    cases hl : f.line with
+    | nil => exact absurd hl hne
+    | cons c0 tl =>
+      rw [hl] at hidx hname hval
+      have h0 : ¬ (c0 = 32 ∨ c0 = 9) := hhead c0 (by rw [hl]; rfl)
+      unfold parseReqLines
+      simp only [h0, ↓reduceIte, hidx, hname, hval]
+      rw [ih _ _ (fun g hg => hwf g (by simp [hg]))]
+      simp only [reqHeaders, List.foldl_cons, hostCount, List.filter_cons]
+      by_cases hh : ciEq f.name (ascii "Host") = true
+      · simp [hh]; omega
+      · simp [hh]
+
+/-- a complete request of the reference syntax -/
+structure FullReq where
+  rl : ReqLine
+  before : List Field := []
+  after : List Field := []
+  body : Body
+
+def FullReq.spec (r : FullReq) : ReqSpec := { line := r.rl.render, before := r.before, after := r.after, body := r.body }
+def FullReq.fields (r : FullReq) : List Field := reqFields r.before r.after r.body
+
+theorem fromWireFormat_exact (r : FullReq) (hrl : r.rl.WF) (hok : r.spec.OK)
+    (hhost : hostCount r.fields = 1) (hhv : hdrFind (reqHeaders r.fields []) (ascii "Host") ≠ some []) :
+    fromWireFormat r.spec.raw =
+      .ok { method := r.rl.method, uri := r.rl.target, minor := r.rl.minor, headers := reqHeaders r.fields [],
+            body := r.body.content } := by
+  have h := hok.1
+  have hwf := reqFields_wf r.rl.render r.before r.after r.body h
+  have hlines1 : ∀ l ∈ r.rl.render :: (reqFields r.before r.after r.body).map Field.line, LineOK l := by
+    intro l hl
+    rcases List.mem_cons.mp hl with rfl | hl
+    · exact ⟨h.line_ne, fun c hc => (h.line_ok c hc).1⟩
+    · obtain ⟨f, hf, rfl⟩ := List.mem_map.mp hl
+      exact fieldLine_lineOK f (hwf f hf)
+  have hlines2 : ∀ l ∈ r.rl.render :: (reqFields r.before r.after r.body).map Field.line, PlainLine l := by
+    intro l hl
+    rcases List.mem_cons.mp hl with rfl | hl
+    · exact fun c hc => ⟨(h.line_ok c hc).1, (h.line_ok c hc).2.1⟩
+    · obtain ⟨f, hf, rfl⟩ := List.mem_map.mp hl
+      exact fieldLine_plain f (hwf f hf)
+  have hraw : r.spec.raw = reqHead r.rl.render r.before r.after r.body ++ crlf2 ++ r.body.content := rfl
+  have hfind : find crlf2 (reqHead r.rl.render r.before r.after r.body ++ crlf2 ++ r.body.content) 0 =
+      some (reqHead r.rl.render r.before r.after r.body).length := by
+    have := find_header_end _ r.body.content 0 (by simp) hlines1
+    simpa [find, reqHead] using this
+  have htake : (reqHead r.rl.render r.before r.after r.body ++ crlf2 ++ r.body.content).take
+      (reqHead r.rl.render r.before r.after r.body).length = reqHead r.rl.render r.before r.after r.body := by
+    rw [List.append_assoc, List.take_left']; rfl
+  have hdrop : (reqHead r.rl.render r.before r.after r.body ++ crlf2 ++ r.body.content).drop
+      ((reqHead r.rl.render r.before r.after r.body).length + 4) = r.body.content := by
+    have l : (reqHead r.rl.render r.before r.after r.body).length + 4 =
+        (reqHead r.rl.render r.before r.after r.body ++ crlf2).length := by simp [crlf2]
+    rw [l, List.drop_left']; rfl
+  have hgl : getLines (reqHead r.rl.render r.before r.after r.body) =
+      r.rl.render :: (reqFields r.before r.after r.body).map Field.line := getLines_join _ (by simp) hlines2
+  unfold fromWireFormat
+  rw [hraw, hfind]
+  simp only [htake, hdrop, hgl, parseRequestLine_exact r.rl hrl, parseReqLines_exact _ [] 0 hwf]
+  have hh : hostCount (reqFields r.before r.after r.body) = 1 := hhost
+  have hv : hdrFind (reqHeaders (reqFields r.before r.after r.body) []) (ascii "Host") ≠ some [] := hhv
+  simp [hh, hv, FullReq.fields]
+
 end Iora.Http.Srv
